@@ -1,6 +1,7 @@
 (* C20 - accuracy of gauss_quant against the normal CDF
    Phi x = 1/2 + int_0^x exp(-t^2/2)/sqrt(2 pi) dt. *)
 From Coq Require Import Reals Lra.
+Set Warnings "-ambiguous-paths".
 From Coquelicot Require Import Coquelicot.
 From Interval Require Import Tactic.
 From Verif Require Import lib.C20_Numpy gen.WinHelp C20.Model C20.ProofsGauss.
